@@ -18,7 +18,7 @@ open Mpir
 def win (a : List Nat) (s rn : Nat) : List Nat := (a.drop s).take rn
 
 /-- Specification, row form.  MP(a, m, b, n) = Σ_{0≤i<m, 0≤j<n, n-1 ≤ i+j ≤ m-1} a_i b_j B^(i+j-n+1)
-    (mulmid_basecase.c:34, mulmid_n.c:32, mulmid.c:33); for fixed j the admissible i are n-1-j ≤ i ≤ m-1-j, the window of
+    (mulmid_basecase.c:36, mulmid_n.c:36, mulmid.c:38); for fixed j the admissible i are n-1-j ≤ i ≤ m-1-j, the window of
     rn = m-n+1 limbs of a starting at n-1-j, so MP = Σ_j b_j · val {a + (n-1-j), rn}.  Recursion on b, least significant
     limb first: the head b_0 sees the window at offset n-1 = length of the tail. -/
 def mpW (rn : Nat) (a : List Nat) : List Nat → Nat
@@ -37,7 +37,7 @@ def addSs0 (hi lo temp : Nat) : Nat × Nat :=
   let sh := (hi + 0 + boolToNat (sl < lo)) % B
   (sh, sl)
 
-/-- mulmid_basecase.c:150-157 (the `while (vn >= 1)` loop; MAX_LEFT = MP_SIZE_T_MAX in the plain configuration):
+/-- mulmid_basecase.c:166-173 (the `while (vn >= 1)` loop; MAX_LEFT = MP_SIZE_T_MAX in the plain configuration):
     temp = mpn_addmul_1 (rp, up, un, vp[0]); add_ssaaaa (hi, lo, hi, lo, 0, temp); up -= 1, vp += 1, vn -= 1.
     `vs` = the limbs of v still to do; up = a + vs.tail.length.  Returns (rp, lo, hi). -/
 def rows (a : List Nat) (un : Nat) : List Nat → List Nat → Nat → Nat → List Nat × Nat × Nat
@@ -47,9 +47,9 @@ def rows (a : List Nat) (un : Nat) : List Nat → List Nat → Nat → Nat → L
       let s := addSs0 hi lo t.2
       rows a un vs t.1 s.2 s.1
 
-/-- mpn_mulmid_basecase (rp, up, un, vp, vn), mulmid_basecase.c:44-169, plain configuration (no native mul_2/addmul_k):
-    up += vn - 1; un -= vn - 1 (:57-58); hi = 0; lo = mpn_mul_1 (rp, up, un, vp[0]); up -= 1, vp += 1, vn -= 1 (:76-77);
-    the addmul_1 loop; rp[un] = lo; rp[un+1] = hi (:167-168).  Result {rp, un0 - vn + 3}. -/
+/-- mpn_mulmid_basecase (rp, up, un, vp, vn), mulmid_basecase.c:48-184, plain configuration (no native mul_2/addmul_k):
+    up += vn - 1; un -= vn - 1 (:61-62); hi = 0; lo = mpn_mul_1 (rp, up, un, vp[0]); up -= 1, vp += 1, vn -= 1 (:81-82);
+    the addmul_1 loop; rp[un] = lo; rp[un+1] = hi (:182-183).  Result {rp, un0 - vn + 3}. -/
 def mulmid_basecase (a : List Nat) (un0 : Nat) (b : List Nat) : List Nat :=
   match b with
   | [] => []                       -- ASSERT (vn >= 1)
@@ -59,12 +59,12 @@ def mulmid_basecase (a : List Nat) (un0 : Nat) (b : List Nat) : List Nat :=
     let r := rows a un vs m.1 m.2 0
     r.1 ++ [r.2.1, r.2.2]
 
-/-- mpn_mulmid_n (rp, ap, bp, n), mulmid_n.c:39-65: `if (n < MULMID_TOOM42_THRESHOLD) basecase (rp, ap, 2n-1, bp, n)
+/-- mpn_mulmid_n (rp, ap, bp, n), mulmid_n.c:45-72: `if (n < MULMID_TOOM42_THRESHOLD) basecase (rp, ap, 2n-1, bp, n)
     else toom42_mulmid (rp, ap, bp, n, scratch)`.  `tm a b n` stands for mpn_toom42_mulmid. -/
 def mulmid_n (T : Nat) (tm : List Nat → List Nat → Nat → List Nat) (a b : List Nat) (n : Nat) : List Nat :=
   if n < T then mulmid_basecase a (2 * n - 1) b else tm a b n
 
-/-- The add-back of the two saved limbs (mulmid.c:79-80, :90-91, :221-222, :235-236):
+/-- The add-back of the two saved limbs (mulmid.c:92-93, :104-105, :240-241, :254-255):
     ADDC_LIMB (cy, rp[0], rp[0], t0); MPN_INCR_U (rp + 1, len - 1, t1 + cy) on the region {rp, len}.
     MPN_INCR_U has no carry out (it would run on); the model drops mpn_add_1's carry, the theorem shows it is 0. -/
 def addback (rp : List Nat) (t0 t1 : Nat) : List Nat :=
@@ -75,8 +75,8 @@ def addback (rp : List Nat) (t0 t1 : Nat) : List Nat :=
       let cy := boolToNat (w < r0)
       w :: (add_1 rs ((t1 + cy) % B)).1
 
-/-- The two "wide" loops of mulmid.c (:72-83 with x = an, w = CHUNK, k = CHUNK - bn + 1, f = basecase of CHUNK limbs;
-    :214-224 with x = rn, w = k = bn, f = toom42_mulmid):
+/-- The two "wide" loops of mulmid.c (:86-95 with x = an, w = CHUNK, k = CHUNK - bn + 1, f = basecase of CHUNK limbs;
+    :234-243 with x = rn, w = k = bn, f = toom42_mulmid):
       while (x >= w) { ap += k, rp += k; t0 = rp[0], t1 = rp[1]; f (rp, ap); add back; x -= k; }
     The output so far is `done ++ cur` with cur = the k+2 limbs at rp.  (0 < k and 0 < x hold in both uses whenever
     w ≤ x; they are in the guard only for the termination proof.)  Returns (done, cur, a, x). -/
@@ -91,7 +91,7 @@ def hloop (f : List Nat → List Nat) (k w : Nat) (a : List Nat) (x : Nat) (done
 termination_by x
 decreasing_by omega
 
-/-- The two "tall" loops of mulmid.c (:121-127 with c = CHUNK, f = basecase; :181-187 with c = rn, f = toom42):
+/-- The two "tall" loops of mulmid.c (:147-153 with c = CHUNK, f = basecase; :195-201 with c = rn, f = toom42):
       while (bn >= c) { ap += c, bp -= c; f (temp, ap, bp); mpn_add_n (rp, rp, temp, rn + 2); bn -= c; }
     `bn` = number of low limbs of b still to do; bp = b + (bn - c) after `bp -= c`.  The carry of add_n is ignored by
     the C.  Returns (rp, a, bn). -/
@@ -105,49 +105,49 @@ def vloop (f : List Nat → List Nat → List Nat) (c : Nat) (a b : List Nat) (b
 termination_by bn
 decreasing_by omega
 
-/-- mpn_mulmid (rp, ap, an, bp, bn), mulmid.c:41-239.  T = MULMID_TOOM42_THRESHOLD, CHUNK = 200 + T (:28).
-    `b` has exactly bn limbs.  The function calls itself on the last chunk of the toom42 regions (:193, :234) with a strictly
+/-- mpn_mulmid (rp, ap, an, bp, bn), mulmid.c:47-258.  T = MULMID_TOOM42_THRESHOLD, CHUNK = 200 + T (:34).
+    `b` has exactly bn limbs.  The function calls itself on the last chunk of the toom42 regions (:207, :253) with a strictly
     smaller an; `fuel` bounds that recursion (an is enough), `[]` = out of fuel. -/
 def mulmid (T : Nat) (tm : List Nat → List Nat → Nat → List Nat) : Nat → List Nat → Nat → List Nat → List Nat
   | 0, _, _, _ => []
   | fuel + 1, a, an, b =>
     let bn := b.length
     let CHUNK := 200 + T
-    if bn < T then                                                  -- :54
-      if an < CHUNK then mulmid_basecase a an b                     -- :58-62
+    if bn < T then                                                  -- :60
+      if an < CHUNK then mulmid_basecase a an b                     -- :64-69
       else
-        let k := CHUNK - bn + 1                                     -- :64
-        -- :67 first chunk; :70-83 remaining chunks.  st = (done, cur, ap, an)
+        let k := CHUNK - bn + 1                                     -- :78
+        -- :81 first chunk; :84-95 remaining chunks.  st = (done, cur, ap, an)
         let st := hloop (fun a' => mulmid_basecase a' CHUNK b) k CHUNK a (an - k) [] (mulmid_basecase a CHUNK b)
-        if st.2.2.2 ≥ bn then                                       -- :85 last remaining chunk
-          -- :89-92  ap += k, rp += k; t0 = rp[0], t1 = rp[1]; basecase (rp, ap, an, bp, bn); add back
+        if st.2.2.2 ≥ bn then                                       -- :97 last remaining chunk
+          -- :101-105  ap += k, rp += k; t0 = rp[0], t1 = rp[1]; basecase (rp, ap, an, bp, bn); add back
           st.1 ++ st.2.1.take k ++
             addback (mulmid_basecase (st.2.2.1.drop k) st.2.2.2 b) (st.2.1.getD k 0) (st.2.1.getD (k + 1) 0)
         else st.1 ++ st.2.1
     else
-      let rn := an - bn + 1                                         -- :100
-      if rn < T then                                                -- :102
-        if bn < CHUNK then mulmid_basecase a an b                   -- :106-110
+      let rn := an - bn + 1                                         -- :113
+      if rn < T then                                                -- :115
+        if bn < CHUNK then mulmid_basecase a an b                   -- :119-124
         else
-          -- :116-118: bp += bn - CHUNK, an -= bn - CHUNK; basecase (rp, ap, an, bp, CHUNK); an' = rn + CHUNK - 1
+          -- :141-142: bp += bn - CHUNK, an -= bn - CHUNK; basecase (rp, ap, an, bp, CHUNK); an' = rn + CHUNK - 1
           let an' := an - (bn - CHUNK)
-          -- :120-127 remaining chunks.  st = (rp, ap, bn)
+          -- :145-153 remaining chunks.  st = (rp, ap, bn)
           let st := vloop (fun a' bc => mulmid_basecase a' an' bc) CHUNK a b (bn - CHUNK)
                       (mulmid_basecase a an' (win b (bn - CHUNK) CHUNK))
-          if st.2.2 ≠ 0 then                                        -- :129-135 last remaining chunk
+          if st.2.2 ≠ 0 then                                        -- :155-161 last remaining chunk
             -- ap += CHUNK, bp -= bn; basecase (temp, ap, rn + bn - 1, bp, bn); add_n (rp, rp, temp, rn + 2)
             (add_n st.1 (mulmid_basecase (st.2.1.drop CHUNK) (rn + st.2.2 - 1) (win b 0 st.2.2))).1
           else st.1
-      else if bn > rn then                                          -- :144
-        -- :156-159: bp += bn - rn; toom42 (rp, ap, bp, rn); :162-168 remaining chunks
+      else if bn > rn then                                          -- :170
+        -- :189-190: bp += bn - rn; toom42 (rp, ap, bp, rn); :193-201 remaining chunks
         let st := vloop (fun a' bc => tm a' bc rn) rn a b (bn - rn) (tm a (win b (bn - rn) rn) rn)
-        if st.2.2 ≠ 0 then                                          -- :170-176 last chunk: mpn_mulmid itself
+        if st.2.2 ≠ 0 then                                          -- :203-209 last chunk: mpn_mulmid itself
           (add_n st.1 (mulmid T tm fuel (st.2.1.drop rn) (rn + st.2.2 - 1) (win b 0 st.2.2))).1
         else st.1
       else
-        -- :208 first chunk toom42 (rp, ap, bp, bn); :211-224 remaining chunks.  st = (done, cur, ap, rn)
+        -- :229 first chunk toom42 (rp, ap, bp, bn); :232-243 remaining chunks.  st = (done, cur, ap, rn)
         let st := hloop (fun a' => tm a' b bn) bn bn a (rn - bn) [] (tm a b bn)
-        if st.2.2.2 ≠ 0 then                                        -- :228-237 last chunk: mpn_mulmid itself, add back
+        if st.2.2.2 ≠ 0 then                                        -- :247-256 last chunk: mpn_mulmid itself, add back
           st.1 ++ st.2.1.take bn ++
             addback (mulmid T tm fuel (st.2.2.1.drop bn) (st.2.2.2 + bn - 1) b) (st.2.1.getD bn 0) (st.2.1.getD (bn + 1) 0)
         else st.1 ++ st.2.1
